@@ -96,15 +96,24 @@ class Facts:
             c = [f for f in self.raw['fns'] if f.get('name') == kw['name'] and f['kind'] != 'closure'
                  and f['path'].startswith(mod) and '::shared::' not in f['path'] and not f.get('impl_trait')
                  and f.get('impl_adt') != kw['impl_adt']
-                 and any(b['term']['k'] == 'call' and 'fn' in b['term']['func'] and
-                         b['term']['func']['fn']['path'].startswith('lock_api::') and
-                         b['term']['func']['fn']['name'] == 'lock' for b in f['blocks'] if not b['cleanup'])]
+                 and self._takes_lock(f)]
             if len(c) == 1:
                 self.alias_fns.add(c[0]['path'])
                 return c[0]
         if len(r) != 1:
             raise AnchorMissing('expected exactly one fn for %r, found %d' % (kw, len(r)))
         return r[0]
+
+    def _takes_lock(self, f):
+        try:
+            from rl import reaches_lock, CallGraph
+            if getattr(self, '_cg', None) is None:
+                self._cg = CallGraph(self)
+            return reaches_lock(self, self._cg, f)
+        except Exception:
+            return any(b['term']['k'] == 'call' and 'fn' in b['term']['func'] and
+                       b['term']['func']['fn']['path'].startswith('lock_api::') and
+                       b['term']['func']['fn']['name'] == 'lock' for b in f['blocks'] if not b['cleanup'])
 
     def methods_of(self, adt, inherent_only=True):
         return [fn for fn in self.raw['fns']
